@@ -201,6 +201,11 @@ pub struct Model {
     pub removed_once: BTreeSet<String>,
     pub cfg: Cfg,
     pub counter: u32,
+    /// files currently written in their variant without `require` calls
+    pub cut: BTreeSet<String>,
+    /// dependencies that were unloadable at some point and were then repaired by writing that very file
+    /// (the trigger of the listed "failed require is not a recorded dependency" finding)
+    pub repaired_directly: BTreeSet<String>,
 }
 
 impl Model {
@@ -211,7 +216,7 @@ impl Model {
         }
         let cfg = Cfg::initial();
         files.insert(CONFIG.to_string(), cfg.text());
-        Model { files, broken: BTreeSet::new(), removed_once: BTreeSet::new(), cfg, counter: 0 }
+        Model { files, broken: BTreeSet::new(), removed_once: BTreeSet::new(), cfg, counter: 0, cut: BTreeSet::new(), repaired_directly: BTreeSet::new() }
     }
 
     fn next(&mut self) -> u32 {
@@ -225,7 +230,8 @@ impl Model {
 
     /// dependencies (of the bundle entry or of m1) that cannot be loaded right now
     pub fn unloadable_deps(&self) -> Vec<&'static str> {
-        DEPS.iter().copied().filter(|d| !self.files.contains_key(*d) || self.broken.contains(*d)).collect()
+        // (leaf is only pulled in by util, and not by its variant without requires)
+        DEPS.iter().copied().filter(|d| !(*d == LEAF && self.cut.contains(UTIL))).filter(|d| !self.files.contains_key(*d) || self.broken.contains(*d)).collect()
     }
 
     fn write(&mut self, out: &mut Applied, path: &str, text: String) {
@@ -245,14 +251,57 @@ impl Model {
     /// directory (what inotify + the debouncer deliver); otherwise as one event per file followed
     /// by the event on the directory.
     pub fn apply(&mut self, op: &str, dir_events: bool) -> Applied {
+        let before: Vec<&'static str> = self.unloadable_deps();
+        let out = self.apply_op(op, dir_events);
+        if !op.starts_with("cut:") {
+            // any other rewrite of the file brings the requires back; a file that is gone is not cut either
+            for m in &out.mutations {
+                match m {
+                    Mutation::Write(p, _) | Mutation::Rename(_, p) | Mutation::Delete(p) => {
+                        self.cut.remove(p);
+                    }
+                    Mutation::DeleteDir(d) => {
+                        let pre = format!("{}/", d);
+                        self.cut.retain(|p| !p.starts_with(&pre));
+                    }
+                }
+            }
+            for m in &out.mutations {
+                if let Mutation::Rename(from, _) = m {
+                    self.cut.remove(from);
+                }
+            }
+        }
+        let after = self.unloadable_deps();
+        for d in before {
+            if !after.contains(&d) && out.mutations.iter().any(|m| matches!(m, Mutation::Write(p, _) | Mutation::Rename(_, p) if p == d)) {
+                self.repaired_directly.insert(d.to_string());
+            }
+        }
+        out
+    }
+
+    fn apply_op(&mut self, op: &str, dir_events: bool) -> Applied {
         let mut out = Applied::default();
         let (kind, arg) = match op.split_once(':') {
             Some((k, a)) => (k, a),
             None => (op, ""),
         };
         match kind {
+            "cut" => {
+                // rewrite a module without its `require` calls (what a user does to get rid of a failing require)
+                if self.files.contains_key(arg) && (arg == UTIL || arg == M1) {
+                    let k = self.next();
+                    self.broken.remove(arg);
+                    self.cut.insert(arg.to_string());
+                    let text = if arg == UTIL { format!("local spare = {k}\nreturn {{ name = \"util{k}\", leaf = 0 }}\n") } else { format!("-- module one {k} (stand-alone)\nlocal M = {{ value = {k} + (2 * 3) }}\nM.name = \"none\"\nreturn M\n") };
+                    self.write(&mut out, arg, text);
+                    out.labels.push("edit_dependency_removing_its_requires");
+                }
+            }
             "edit" => {
                 if self.files.contains_key(arg) && arg != CONFIG {
+                    self.cut.remove(arg);
                     let k = self.next();
                     let was_broken = self.broken.remove(arg);
                     self.write(&mut out, arg, content(arg, k));
@@ -527,6 +576,9 @@ pub fn random_ops(avoid_filter_hash: bool, avoid_recreate: bool) -> Vec<String> 
         v.push(format!("mvin:{}", MAIN));
     }
     v.push(format!("mvin:{}", NEW2));
+    v.push(format!("cut:{}", UTIL));
+    v.push(format!("cut:{}", UTIL));
+    v.push(format!("cut:{}", M1));
     v.push(format!("mvout:{}", A));
     v.push(format!("mvout:{}", M1));
     for p in [C, NEW1, NEW2] {
